@@ -7,6 +7,7 @@ import Driver.CodecSuite
 import Driver.InitSuite
 import Driver.InitSpec
 import Driver.BeaconSuite
+import Driver.NodeSuite
 /-
   vpmodel: reads lines `op<TAB>implementation observation`, prints `model observation<TAB>spec verdict`.
 -/
@@ -18,6 +19,7 @@ structure DState where
   rot : RotSt := {}
   init : ISt := {}
   initRef : IRef := {}
+  node : NSt := {}
 
 def stepLine (st : DState) (line : String) : DState × String :=
   let parts := line.splitOn "\t"
@@ -50,6 +52,9 @@ def stepLine (st : DState) (line : String) : DState × String :=
   | some (is, m, _) =>
     let (rf, sv) := refStep st.initRef toks implObs
     ({ st with init := is, initRef := rf }, m ++ "\t" ++ sv)
+  | none =>
+  match nodeStep st.node toks implObs with
+  | some (ns, m, s) => ({ st with node := ns }, m ++ "\t" ++ s)
   | none => (st, "bad-op\t-")
 
 partial def loop (h : IO.FS.Stream) (out : IO.FS.Stream) (st : DState) : IO Unit := do
